@@ -656,6 +656,61 @@ func TestLargeTexts(t *testing.T) {
 	evid.Exhaustive("large texts x {parse, load, run error at the end; tree start; lookup routines}", n)
 }
 
+// TestParseErrorPositionTable: parse errors whose offending construct is known: the reported position lies inside
+// the statement at fault (never before the text or past it), with line and column matching the offset.
+func TestParseErrorPositionTable(t *testing.T) {
+	type tc struct{ pre, stmt, post string }
+	var cases []tc
+	for _, lit := range []string{"2.5", "\"s\"", "[1]", "1e3", "-2.5", "{}"} {
+		for _, form := range []string{"r = a[%s:]", "r = a[:%s]", "r = a[::%s]", "r = a[1::%s]", "r = a[1:2:%s]", "r = \"abc\"[::%s]", "r = f()[1::%s]", "r = a[%s::]"} {
+			st := fmt.Sprintf(form, lit)
+			cases = append(cases, tc{"", st, ""}, tc{"a = [1, 2]\n", st, "\nb = 2"}, tc{"a = 1\nif a {\n  é = \"注\"\n  ", st, "\n}\n"})
+		}
+	}
+	for _, st := range []string{"x = 1 / 0", "x = 1 % 0", "x = = 2", "x = (1 +", "f(a=)", "x = [1, 2", "x = \"unterminated", "x = 1e", "x = 0x", "if { }", "for x in { }", "a[", "x = a[1:2:3:4]", "x = 1 @ 2"} {
+		cases = append(cases, tc{"", st, ""}, tc{"a = [1, 2]\n# c é\n", st, "\nb = 2"})
+	}
+	n := 0
+	for _, c := range cases {
+		src := c.pre + c.stmt + c.post
+		lo, hi := len(c.pre), len(c.pre)+len(c.stmt)
+		_, err, crash := impl.Parse("c17.p", src)
+		rp := replay{Src: src, Part: "parse-error", Span: [2]int{lo, hi}}
+		if crash != nil {
+			rk.Fail(t, "parse-table", rp, "parser panicked: %s", crash.Value)
+		}
+		if err == nil {
+			evid.Discard("parse-fault-accepted")
+			continue
+		}
+		pe := impl.PlErr(err)
+		if pe == nil || len(pe.PosChain) == 0 {
+			rk.Fail(t, "parse-table", rp, "parse error without a position: %v\nsource: %q", err, src)
+		}
+		p := pe.PosChain[0]
+		// an error that needs the next token to be noticed may sit on that token: allow up to the end of the line after the statement
+		end := hi
+		if i := strings.IndexByte(src[hi:], '\n'); i >= 0 && hi+i+1 <= len(src) {
+			end = hi + i + 1
+			if j := strings.IndexByte(src[end:], '\n'); j >= 0 {
+				end += j
+			} else {
+				end = len(src)
+			}
+		}
+		if p.Pos < lo || p.Pos > end {
+			rk.Fail(t, "parse-table", rp, "parse error %q is located at offset %d (%d:%d), the statement at fault is %q at [%d,%d)\nsource: %q", pe.Err, p.Pos, p.Ln, p.Col, c.stmt, lo, hi, src)
+		}
+		ln, col := impl.LnCol(src, p.Pos)
+		if ln != p.Ln || col != p.Col {
+			rk.Fail(t, "parse-table", rp, "parse error at offset %d says %d:%d, the offset is at %d:%d", p.Pos, p.Ln, p.Col, ln, col)
+		}
+		evid.Case("parse-table/"+src, true, "parse-error-position")
+		n++
+	}
+	evid.Exhaustive("statements with a known parse fault x contexts", n)
+}
+
 // ------------------------------------------------------------------ (iii) lookup routines
 
 func TestLookupRoutinesExhaustive(t *testing.T) {
@@ -719,7 +774,8 @@ func TestLookupRoutinesRandom(t *testing.T) {
 
 func TestErrorChains(t *testing.T) {
 	rk.Check(t, "chains", 4, evid.Scale(2000, 20000), func(t *rapid.T) {
-		n := rapid.IntRange(1, 4).Draw(t, "n")
+		n := rapid.IntRange(1, 9).Draw(t, "n")
+		renderEarly := rapid.Bool().Draw(t, "render-while-building")
 		type pos struct {
 			file string
 			p    token.LnColPos
@@ -734,6 +790,10 @@ func TestErrorChains(t *testing.T) {
 		msg := rapid.SampledFrom([]string{"boom", "unsupported func: `x`", "a: b: c", "line1\nline2", "", "é \"q\""}).Draw(t, "msg")
 		e := errchain.NewErr(ps[0].file, ps[0].p, msg)
 		for _, p := range ps[1:] {
+			if renderEarly {
+				_ = e.Error() // a host that logs the error at every level: rendering is an observation, it changes nothing
+				_, _ = json.Marshal(e)
+			}
 			e = e.ChainAppend(p.file, p.p)
 		}
 		rp := replay{Part: "chain", Src: fmt.Sprint(ps, msg)}
@@ -759,6 +819,11 @@ func TestErrorChains(t *testing.T) {
 			rk.Fail(t, "chains", rp, "json.Marshal: %v", err)
 		}
 		var back errchain.PlError
+		if renderEarly {
+			// decoding into a value that held (and rendered) another error before
+			back = *errchain.NewErr("old.p", token.LnColPos{Pos: 3, Ln: 1, Col: 4}, "an earlier error")
+			_ = back.Error()
+		}
 		if err := json.Unmarshal(b, &back); err != nil {
 			rk.Fail(t, "chains", rp, "json.Unmarshal: %v", err)
 		}
